@@ -140,6 +140,7 @@ type Enc struct {
 	skippedImplicit int
 	usedPrivate  map[string]bool
 	ifaceType    map[string]int
+	poisonedPaths map[string]bool
 	curTag       int
 	ntag         int
 	curAllowed   map[int]bool
@@ -425,11 +426,40 @@ func (e *Enc) updatePath(cur string, path []pathStep, v string) string {
 	return app("mk-"+si.name, args...)
 }
 
+// pathKey names the field path of a pointer (array indices ignored); poison marks a path whose contents are unknown
+// for the rest of the function (see the nestedslice abstraction); poisoned reports whether p lies on or under one.
+func pathKey(p *ptrInfo) string {
+	k := p.region
+	for _, st := range p.path {
+		k += fmt.Sprintf("/%d", st.field)
+	}
+	return k + "/"
+}
+
+func (e *Enc) poison(p *ptrInfo) {
+	if e.poisonedPaths == nil {
+		e.poisonedPaths = map[string]bool{}
+	}
+	e.poisonedPaths[pathKey(p)] = true
+}
+
+func (e *Enc) checkPoison(p *ptrInfo, what string) {
+	k := pathKey(p)
+	for pk := range e.poisonedPaths {
+		if strings.HasPrefix(k, pk) {
+			e.errf("%s of an array field after it was sliced (nestedslice abstraction): its contents are unknown", what)
+			return
+		}
+	}
+}
+
 func (e *Enc) load(s *state, p *ptrInfo) string {
+	e.checkPoison(p, "read")
 	return e.applyPath(e.cellTerm(s, p), p.path)
 }
 
 func (e *Enc) store(s *state, p *ptrInfo, v string) {
+	e.checkPoison(p, "write")
 	cell := e.cellTerm(s, p)
 	nv := e.updatePath(cell, p.path, v)
 	if strings.HasPrefix(p.region, "mem:") {
